@@ -563,6 +563,19 @@ class Oracle:
                 return np.matmul(a, b)
             if node[1] == "sub" and any(d[0] == "delta" for d in walk(node[3])):
                 raise OutOfDomain("subtracting a point mass")
+            if node[1] in ("add", "sub"):
+                # Delta + f is rewritten to Delta + f(name=point): f must be inside its domain at the point as well
+                terms_ = additive_deltas(node)
+                if len({t[0] for t in terms_}) != len(terms_):
+                    raise OutOfDomain("two point masses on one variable")
+                for name, point, ld in terms_:
+                    if name in env and set(typeof(point)[0]) <= set(env):
+                        p = np.asarray(ev(point, env))
+                        q = np.asarray(env[name])
+                        if p.shape == q.shape and not np.array_equal(p.astype(float), q.astype(float)):
+                            at = np.asarray(ev(node, dict(env, **{name: p})), dtype=float)
+                            if np.isnan(at).any():
+                                raise OutOfDomain("the other addends are undefined at the Delta's point")
             _check_domain_bin(node[1], a, b)
             return np.asarray(NP_BINARY[node[1]](a, b))
         if k == "getitem":
@@ -667,8 +680,8 @@ class Oracle:
         if k == "integrate":
             _, lm, ig, vs = node
             check_int_deltas(lm, {n for n, s_ in vs})
-            if any(d[0] == "delta" and any(t[0] in {n for n, s_ in vs} for t in d[1]) for d in walk(ig)):
-                raise Undecided("Delta on an integrated variable inside the integrand")
+            if any(d[0] == "delta" for d in walk(ig)):
+                raise OutOfDomain("a Delta (log-density) used as an integrand")
             total = None
             for idx in itertools.product(*[range(s) for n, s in vs]):
                 e2 = dict(env)
@@ -748,19 +761,26 @@ class Oracle:
         if not everywhere:
             return reals
         for b in bodies[1:]:
-            if any(d[0] == "delta" and any(t[0] in names for t in d[1]) for d in walk(b)):
-                raise Undecided("Delta on an integrated variable inside the integrand")
+            if any(d[0] == "delta" for d in walk(b)):
+                raise OutOfDomain("a Delta (log-density) used as an integrand")
         if len(everywhere) != sum(1 for t in add if t[0] in names) or len({t[0] for t in everywhere}) != len(everywhere):
             raise Undecided("Delta on a reduced variable is not an addend of the body")
-        for name, point, ld in add:
-            if name in names:
-                if not _is_zero(ld):
-                    # funsor discards the log_density of a Delta term that is integrated out by reduce() but keeps it
-                    # in Integrate(); the listed properties speak about unit-mass point masses only
-                    raise Undecided("non-unit Delta under a reduction")
-                if names & set(typeof(point)[0]):
-                    raise Undecided("Delta point depends on a reduced variable")
+        todo = [t for t in add if t[0] in names]
+        for name, point, ld in todo:
+            if not _is_zero(ld):
+                # funsor discards the log_density of a Delta term that is integrated out by reduce() but keeps it
+                # in Integrate(); the listed properties speak about unit-mass point masses only
+                raise Undecided("non-unit Delta under a reduction")
+        # a point may mention another integrated variable (Delta(x, p) + Delta(y, x + 1)): plug in dependency order
+        pending = {t[0] for t in todo}
+        while todo:
+            ready = [t for t in todo if not (pending & set(typeof(t[1])[0]))]
+            if not ready:
+                raise Undecided("Delta points depend on each other's variables")
+            for name, point, ld in ready:
                 e2[name] = np.asarray(self.ev(point, e2), dtype=float)
+                pending.discard(name)
+            todo = [t for t in todo if t[0] in pending]
         return [(n, sh) for n, sh in reals if n not in {t[0] for t in add}]
 
     def _red_real(self, node, env):
